@@ -24,22 +24,24 @@ import (
 func init() { scen.Register("c19s", func() scen.Scenario { return &SS{} }) }
 
 type SS struct {
-	mu        sync.Mutex
-	size      int
-	qcap      int
-	running   int
-	highWater int
-	invoked   map[int32]int
-	sent      map[int32]bool
-	answered  map[int32]int
-	conns     []*simnet.TCPConn
-	done      bool
-	overAt    time.Duration
-	overIDs   []int32
-	runIDs    map[int32]bool
-	proto     string
-	shutdown  bool
-	shutErr   string
+	mu          sync.Mutex
+	size        int
+	qcap        int
+	running     int
+	highWater   int
+	invoked     map[int32]int
+	sent        map[int32]bool
+	answered    map[int32]int
+	conns       []*simnet.TCPConn
+	done        bool
+	overAt      time.Duration
+	overIDs     []int32
+	runIDs      map[int32]bool
+	proto       string
+	shutdown    bool
+	shutErr     string
+	closedEarly map[*simnet.TCPConn]bool
+	noAnswer    map[int32]bool // requests of connections their client closed early
 }
 
 type sdisp struct{ s *SS }
@@ -77,15 +79,16 @@ func (s *SS) Prepare(c *scen.Ctx) { world.PrepareProcess() }
 func (s *SS) YieldOff() []string {
 	return []string{"tars/util/rtimer", "tars/util/rogger", "tars/selector"}
 }
-func (s *SS) NoStalls() bool                 { return true }
+func (s *SS) NoStalls() bool               { return true }
 func (s *SS) Limits() (time.Duration, int) { return 3 * time.Minute, 1500000 }
 
 const saddr = "10.0.0.9:1900"
 
 func (s *SS) Run(c *scen.Ctx) {
 	s.invoked, s.sent, s.answered, s.runIDs = map[int32]int{}, map[int32]bool{}, map[int32]int{}, map[int32]bool{}
+	s.closedEarly, s.noAnswer = map[*simnet.TCPConn]bool{}, map[int32]bool{}
 	s.size = 1 + simrt.Draw(4, "c19s.size")
-	s.qcap = []int{1, 2, 3, 8, 1000}[simrt.Draw(5, "c19s.qcap")]
+	s.qcap = []int{1, 2, 3, 8, 1000, 0}[simrt.Draw(6, "c19s.qcap")]
 	simnet.Cfg.Fragment = simrt.Draw(2, "c19s.frag") == 1
 	c.Describe("pool", s.size)
 	c.Describe("queue_cap", s.qcap)
@@ -122,6 +125,8 @@ func (s *SS) Run(c *scen.Ctx) {
 			reqs = append(reqs, &refcodec.Request{Version: 1, RequestID: nextID, Servant: "App.Srv.Obj", Func: "work",
 				Buffer: []byte{byte(d >> 8), byte(d), byte(i), byte(k)}, Timeout: 60000, Context: map[string]string{}, Status: map[string]string{}})
 		}
+		closeAfter := simrt.Draw(3, "c19s.closeafter") == 2
+		closeGap := time.Duration(simrt.Draw(30, "c19s.closegap")) * time.Millisecond
 		wg.Add(1)
 		simrt.GoNamed(fmt.Sprintf("rawclient%d", i), func() {
 			defer wg.Done()
@@ -182,6 +187,16 @@ func (s *SS) Run(c *scen.Ctx) {
 					simrt.Sleep(time.Duration(1+simrt.Draw(60, "c19s.pausems")) * time.Millisecond)
 				}
 			}
+			if closeAfter {
+				// a client that does not wait for answers (notifications): it closes as soon as it has
+				// sent everything; what the server has read is executed all the same
+				simrt.Sleep(closeGap)
+				cn.Close()
+				s.mu.Lock()
+				s.closedEarly[cn.(*simnet.TCPConn)] = true
+				s.mu.Unlock()
+				c.Count("fault.client_closes_without_waiting_for_answers", 1)
+			}
 		})
 	}
 	wg.Wait()
@@ -239,22 +254,25 @@ func (s *SS) Check(c *scen.Ctx, res *simrt.Result) {
 				s.answered[r.RequestID]++
 			}
 		}
-		if s.shutdown {
-			// the client may have written requests the server never read before it stopped
-			// reading: only what its receive loop consumed was handed to the pool
-			for id := range s.sent {
-				delete(s.sent, id)
-			}
-		}
 	}
 	if s.shutdown {
 		key += ",shutdown"
+	}
+	if s.proto == "tcp" {
+		// the client may have written requests the server never read (it stopped reading at a
+		// shutdown, or the client hung up): only what its receive loop consumed was handed to the pool
+		for id := range s.sent {
+			delete(s.sent, id)
+		}
 		for _, cn := range s.conns {
 			b := cn.Pair.C2S.Bytes()
 			frames, _, _ := refcodec.SplitFrames(b[:cn.Pair.C2S.ReadOffset()], 0)
 			for _, f := range frames {
 				if q, err := refcodec.DecodeRequest(f); err == nil {
 					s.sent[q.RequestID] = true
+					if s.closedEarly[cn] {
+						s.noAnswer[q.RequestID] = true
+					}
 				}
 			}
 		}
@@ -285,7 +303,7 @@ func (s *SS) Check(c *scen.Ctx, res *simrt.Result) {
 		}
 		// (a datagram read in the instant in which the shutdown closes the socket is executed; its
 		// answer has nowhere to go)
-		if n := s.answered[id]; n != 1 && !(s.proto == "udp" && s.shutdown && n == 0) {
+		if n := s.answered[id]; n != 1 && !(s.proto == "udp" && s.shutdown && n == 0) && !(s.noAnswer[id] && n == 0) {
 			c.Fail("C19", "answer-count", key, "request %d was answered %d times", id, n)
 		}
 	}
